@@ -2173,7 +2173,7 @@ pub fn registry() -> Vec<Profile> {
             title: "deterministic and reentrant",
             run: run_c18,
             required: &["corpus_accepted", "corpus_refused", "repeated_same_incarnation", "hash_incarnations", "thread_engine_runs", "fresh_process", "first_use_contended", "async_interleaved_same_thread", "real_parallel_threads"],
-            rule: "per run a corpus of 3-8 deliveries (valid and defective at every rule, both carriers, folding) with fixed node, instant and provider answer is evaluated single-threaded (golden), again in the same incarnation, under 2-5 other tape-chosen hash seeds, by 2-8 (thorough: 2-16) real OS threads under the baton scheduler (one runnable thread at a time, seeded hand-off at every log record and provider seam), and in a fraction of runs in a fresh process with real hash keys whose first use of every lazy global happens with four threads released together; outcome signature = Ok + returned request and identity, or (kind, code, status, message class); distinct interleavings = distinct hashes of the baton hand-off trace One thread-engine run in three shares a key-store connection pool of 1-2 connections among the threads (poll_ready reserves, call uses the reservation or a free connection or fails); each run also abandons 4-32 validations mid-await and re-evaluates the corpus afterwards.",
+            rule: "per run a corpus of 3-8 deliveries (valid and defective at every rule, both carriers, folding) with fixed node, instant and provider answer is evaluated single-threaded (golden), again in the same incarnation, under 2-5 other tape-chosen hash seeds, by 2-8 (thorough: 2-16) real OS threads under the baton scheduler (one runnable thread at a time, seeded hand-off at every log record and provider seam), and in a fraction of runs in a fresh process with real hash keys whose first use of every lazy global happens with four threads released together; outcome signature = Ok + returned request and identity, or (kind, code, status, message class); distinct interleavings = distinct hashes of the baton hand-off trace. One thread-engine run in three shares a key-store connection pool of 1-2 connections among the threads (poll_ready reserves, call uses the reservation or a free connection or fails); each run also abandons 4-32 validations mid-await and re-evaluates the corpus afterwards.",
             quick_runs: 6800,
             thorough_runs: 81600,
             real: REAL_COMMON,
@@ -2187,7 +2187,7 @@ pub fn registry() -> Vec<Profile> {
             title: "repeated authentication inputs",
             run: run_c19,
             required: &["dup_accepted", "dup_refused", "both_carriers_refused", "provider_saw_selected_identity"],
-            rule: "duplication faults on authentication inputs: a second Authorization header (before/after), a repeated Credential/Signature/SignedHeaders inside it, repeated X-Amz-* query parameters (6 names), two X-Amz-Date headers, Date beside X-Amz-Date (either is the real one), two token headers, both carriers at once; values differ and exactly one selection makes the reference signature valid; the documented selection table and the reference verdict from the bytes must agree before the library is judged; non-trivial always (a duplication fault fired); distinct by shape hash Duplicates may be empty (empty first Authorization / X-Amz-Date / token header, empty last Credential= / Signature= / SignedHeaders=), the parameter list may contain empty elements, look-alike parameter names (NBSP/NEL byte in front, other letter case) are unknown parameters, and the Date header may be signed while X-Amz-Date is not.",
+            rule: "duplication faults on authentication inputs: a second Authorization header (before/after), a repeated Credential/Signature/SignedHeaders inside it, repeated X-Amz-* query parameters (6 names), two X-Amz-Date headers, Date beside X-Amz-Date (either is the real one), two token headers, both carriers at once; values differ and exactly one selection makes the reference signature valid; the documented selection table and the reference verdict from the bytes must agree before the library is judged; non-trivial always (a duplication fault fired); distinct by shape hash. Duplicates may be empty (empty first Authorization / X-Amz-Date / token header, empty last Credential= / Signature= / SignedHeaders=), the parameter list may contain empty elements, look-alike parameter names (NBSP/NEL byte in front, other letter case) are unknown parameters, and the Date header may be signed while X-Amz-Date is not.",
             quick_runs: 200000,
             thorough_runs: 2400000,
             real: REAL_COMMON,
